@@ -106,6 +106,9 @@ def gen_tree(rng, want_ignore, want_links, want_shm):
                     else:
                         pats.append(rng.choice(IGN_LITERALS))
                 fname = rng.choice([".gitignore", ".fdignore"])
+                if rng.chance(1, 3):
+                    # the ignore file is a SYMBOLIC LINK to a regular file (a shared rules file): it is honoured like any other
+                    pats = ["\x00LINK"] + pats
                 entries.append([os.path.join(d, fname) if d else fname, "I", pats])
                 names_in.setdefault(d, set()).add(fname)
                 if rng.chance(1, 6):
@@ -382,7 +385,12 @@ def materialize(spec, base, shm_base):
             with open(full, "wb") as f:
                 f.write(b"x" * a)
         elif k == "I":
-            with open(full, "w") as f:
+            real = full
+            if a and a[0] == "\x00LINK":
+                a = a[1:]
+                real = os.path.join(os.path.dirname(full), ".rules-of-" + os.path.basename(full).lstrip("."))
+                os.symlink(os.path.basename(real) if len(a) % 2 else real, full)      # relative or absolute link text
+            with open(real, "w") as f:
                 f.write("".join(x + "\n" for x in a))
         elif k == "O":
             os.mkfifo(full)
